@@ -5,6 +5,7 @@
 package main
 
 import (
+	"bytes"
 	"fmt"
 	"path/filepath"
 	"reflect"
@@ -117,7 +118,13 @@ func (c *checker) def(d *tlschema.Def, mustExist bool) {
 		return // hand-written wire form (msg_container): id only
 	}
 	if _, custom := reflect.New(e.Type.Elem()).Interface().(tl.Marshaler); custom {
-		return // gzip_packed: hand-written wire form, id only
+		if e.CRC == 0x3072cfa1 {
+			return // gzip_packed: hand-written wire form whose bytes are not a function of the value alone; id only
+		}
+		// a type that codes itself is compared with its schema line through its wire form: a value with
+		// pairwise different items must encode to what the line defines, and those bytes must decode to it
+		c.selfCoding(d, e)
+		return
 	}
 	st := e.Type.Elem()
 	params := d.NonFlagParams()
@@ -148,6 +155,34 @@ func (c *checker) def(d *tlschema.Def, mustExist bool) {
 		c.bad(d, "flags-position", fmt.Sprintf("flags word is parameter #%d, FlagIndex() = %d", fi, g.FlagIndex()))
 	case fi < 0 && isGetter:
 		c.bad(d, "flags-position", "type has FlagIndex() but the schema line has no flags word")
+	}
+}
+
+func (c *checker) selfCoding(d *tlschema.Def, e *tlx.Entry) {
+	g := &tlx.Gen{R: c.reg}
+	n := 0
+	g.Cases(e, 1, func(cs tlx.Case) {
+		want, err := c.cur.Encode(cs.V)
+		if err != nil {
+			return
+		}
+		n++
+		got, merr := tl.Marshal(cs.V.Interface().(tl.Object))
+		if merr != nil || !bytes.Equal(got, want) {
+			c.bad(d, "self-coding|encodes-differently", fmt.Sprintf("%s: the type codes itself and writes %d bytes where the schema line defines %d (err=%v)", cs.ID, len(got), len(want), merr))
+			return
+		}
+		obj, derr := tl.DecodeUnknownObject(want)
+		if derr != nil {
+			c.bad(d, "self-coding|refuses-schema-bytes", cs.ID+": "+derr.Error())
+			return
+		}
+		if ok, path := tlx.Equal(tlx.Normalize(cs.V), reflect.ValueOf(obj), ""); !ok {
+			c.bad(d, "self-coding|decodes-differently", cs.ID+": the bytes the schema line defines decode to a different value at "+path)
+		}
+	})
+	if n == 0 {
+		c.bad(d, "self-coding|no-case", "no value of the type could be built and encoded from the schema line")
 	}
 }
 
